@@ -76,7 +76,24 @@ pub async fn exec(f: u32, a: &Args) -> Args {
                 8 => { let mut x = h; x[3] ^= 0x5a; x[17] ^= 0x5a; vec![other(1), Sha256Digest::new(x)] }
                 _ => { let mut x = h; x[31] ^= 0x80; vec![Sha256Digest::new(x)] }
             };
-            let set_out: Vec<Vec<u64>> = hashes.iter().map(|d| b2a(d.as_ref())).collect();
+            // a[0][6]: how the verifier gets its set: 0 = new(set); 1 = new(eight other pins) then add(each);
+            // 2 = new(empty) then add(each) in descending order
+            let how = a[0].get(6).copied().unwrap_or(0);
+            let mut hashes = hashes;
+            let mut base: Vec<Sha256Digest> = vec![];
+            if how == 1 {
+                for i in 0..8u8 {
+                    let mut x = [i; 32];
+                    x[0] = 0xf0 + i;
+                    base.push(Sha256Digest::new(x));
+                }
+            }
+            if how == 2 {
+                hashes.sort_by(|x, y| y.as_ref().cmp(x.as_ref()));
+            }
+            let mut all = base.clone();
+            all.extend(hashes.iter().cloned());
+            let set_out: Vec<Vec<u64>> = all.iter().map(|d| b2a(d.as_ref())).collect();
             if corrupt == 1 {
                 der.truncate(der.len() / 2);
             } else if corrupt == 2 {
@@ -84,7 +101,15 @@ pub async fn exec(f: u32, a: &Args) -> Args {
                 der[n - 5] ^= 0x55; // signature bits: still parses, hash differs
             }
             let presented_hash = sha(&der);
-            let v = ServerHashVerification::new(hashes);
+            let v = if how == 0 {
+                ServerHashVerification::new(hashes)
+            } else {
+                let mut v = ServerHashVerification::new(base);
+                for h in hashes {
+                    v.add(h);
+                }
+                v
+            };
             let r = v.verify_server_cert(
                 &CertificateDer::from(der),
                 &[],
@@ -104,6 +129,58 @@ pub async fn exec(f: u32, a: &Args) -> Args {
             let mut out = vec![vec![1, code], vec![(p_nb - BASE + bias) as u64, (p_na - BASE + bias) as u64, p_ec as u64, p_p256 as u64], b2a(&presented_hash)];
             out.extend(set_out);
             out
+        }
+        // default trust policy against a self-signed server, under four settings of the environment
+        // variables that can name extra roots; each runs in a child process (702 parent, 703 child)
+        702 => {
+            let variant = a[0][0];
+            let dir = tmp("trust");
+            let _ = std::fs::create_dir_all(&dir);
+            let id = Identity::self_signed(["localhost", "127.0.0.1"]).unwrap();
+            let cert_path = dir.join("leaf.pem");
+            let key_path = tmp("trust-key.pem");
+            if id.certificate_chain().store_pemfile(&cert_path).await.is_err() || id.private_key().store_secret_pemfile(&key_path).await.is_err() {
+                return vec![vec![2]];
+            }
+            let mut cmd = std::process::Command::new(std::env::current_exe().unwrap());
+            let mut argv = vec![vec![0u64], b2a(cert_path.to_string_lossy().as_bytes()), b2a(key_path.to_string_lossy().as_bytes())];
+            argv[0][0] = variant;
+            cmd.args(["replay", "703", &crate::args_str(&argv)]);
+            cmd.env_remove("SSL_CERT_FILE").env_remove("SSL_CERT_DIR");
+            if variant == 1 || variant == 3 { cmd.env("SSL_CERT_FILE", &cert_path); }
+            if variant == 2 || variant == 3 { cmd.env("SSL_CERT_DIR", &dir); }
+            let outp = tokio::task::spawn_blocking(move || cmd.output()).await;
+            let _ = std::fs::remove_dir_all(&dir);
+            let _ = std::fs::remove_file(&key_path);
+            let text = match outp { Ok(Ok(o)) => String::from_utf8_lossy(&o.stdout).into_owned(), _ => return vec![vec![2]] };
+            let line = text.lines().find(|l| l.starts_with("f=703")).unwrap_or("");
+            let res = line.rsplit("out=").next().unwrap_or("");
+            let nums: Vec<u64> = res.split(|c| c == ',' || c == ';').filter_map(|x| x.trim().parse().ok()).collect();
+            if nums.len() < 3 { return vec![vec![2]]; }
+            vec![vec![1, nums[1], nums[2]]]
+        }
+        703 => {
+            let cert = String::from_utf8(a2b(&a[1])).unwrap();
+            let key = String::from_utf8(a2b(&a[2])).unwrap();
+            let id = match Identity::load_pemfiles(&cert, &key).await { Ok(i) => i, Err(_) => return vec![vec![2, 9, 9]] };
+            let hash = id.certificate_chain().as_slice()[0].hash();
+            let server = wtransport::Endpoint::server(wtransport::ServerConfig::builder().with_bind_address("127.0.0.1:0".parse().unwrap()).with_identity(id).build()).unwrap();
+            let port = server.local_addr().unwrap().port();
+            let url = format!("https://localhost:{}/t", port);
+            let acc = tokio::spawn(async move {
+                loop {
+                    let inc = server.accept().await;
+                    tokio::spawn(async move { if let Ok(r) = inc.await { if let Ok(c) = r.accept().await { tokio::time::sleep(Duration::from_secs(2)).await; drop(c); } } });
+                }
+            });
+            // control: the pinned client connects
+            let pinned = wtransport::Endpoint::client(wtransport::ClientConfig::builder().with_bind_default().with_server_certificate_hashes([hash]).build()).unwrap();
+            let ctl = matches!(tokio::time::timeout(Duration::from_millis(2500), pinned.connect(&url)).await, Ok(Ok(_))) as u64;
+            // default trust policy
+            let dflt = wtransport::Endpoint::client(wtransport::ClientConfig::builder().with_bind_default().with_native_certs().build()).unwrap();
+            let got = matches!(tokio::time::timeout(Duration::from_millis(2500), dflt.connect(&url)).await, Ok(Ok(_))) as u64;
+            acc.abort();
+            vec![vec![1, ctl, got]]
         }
         // digest: format then parse (both formats, and FromStr)
         711 => {
@@ -169,6 +246,34 @@ pub async fn exec(f: u32, a: &Args) -> Args {
             out.append(&mut ders);
             out
         }
+        // PEM: a chain of n certificates, then a chain of m, stored into the SAME file; also a key after a longer key
+        724 => {
+            let (n, m) = (a[0][0] as usize, a[0][1] as usize);
+            let mk = |k: usize| -> Vec<Certificate> { (0..k).map(|i| Certificate::from_der(make_cert(i % 3, 0, 2000 + i as i64)).unwrap()).collect() };
+            let first = CertificateChain::new(mk(n));
+            let second_certs = mk(m);
+            let second = CertificateChain::new(second_certs.clone());
+            let path = tmp("rechain.pem");
+            let s1 = first.store_pemfile(&path).await.is_ok() as u64;
+            let s2 = second.store_pemfile(&path).await.is_ok() as u64;
+            let back = CertificateChain::load_pemfile(&path).await;
+            let text = std::fs::read(&path).unwrap_or_default();
+            let _ = std::fs::remove_file(&path);
+            let same = match &back {
+                Ok(b) => (b.as_slice().len() == m && b.as_slice().iter().zip(second_certs.iter()).all(|(x, y)| x.der() == y.der())) as u64,
+                Err(_) => 2,
+            };
+            let want: String = second_certs.iter().map(|c| c.to_pem()).collect();
+            // a short key over a long key
+            let kp = tmp("rekey.pem");
+            let long = PrivateKey::from_der_pkcs8(vec![7u8; 300]);
+            let short = PrivateKey::from_der_pkcs8(vec![9u8; 20]);
+            let _ = long.store_secret_pemfile(&kp).await;
+            let _ = short.store_secret_pemfile(&kp).await;
+            let ktext = std::fs::read(&kp).unwrap_or_default();
+            let _ = std::fs::remove_file(&kp);
+            vec![vec![1, s1, s2, same, (text == want.as_bytes()) as u64, (ktext == short.to_secret_pem().as_bytes()) as u64]]
+        }
         // corrupt PEM / DER text must be an error, never a panic: [kind], bytes
         723 => {
             let bytes = a2b(&a[1]);
@@ -216,6 +321,18 @@ pub async fn exec(f: u32, a: &Args) -> Args {
             // accepted by pinning configured with its own hash, now
             let v = ServerHashVerification::new([cert.hash()]);
             let ok = v.verify_server_cert(&CertificateDer::from(der.clone()), &[], &ServerName::try_from("localhost").unwrap(), &[], UnixTime::now()).is_ok();
+            // ... and when its hash is added to a verifier that already holds other pins
+            let ok = ok && {
+                let mut others = vec![];
+                for i in 0..8u8 {
+                    let mut x = [i; 32];
+                    x[0] = 0xf0 + i;
+                    others.push(Sha256Digest::new(x));
+                }
+                let mut v2 = ServerHashVerification::new(others);
+                v2.add(cert.hash());
+                v2.verify_server_cert(&CertificateDer::from(der.clone()), &[], &ServerName::try_from("localhost").unwrap(), &[], UnixTime::now()).is_ok()
+            };
             let valid_now = nb <= before + 2 && before <= na;
             let mut out = vec![vec![1, ec as u64, p256 as u64, v3 as u64, (na - nb) as u64, valid_now as u64, ok as u64, (cert.hash().as_ref() == &sha(&der)) as u64]];
             out.append(&mut san_out);
@@ -255,6 +372,23 @@ pub fn oracle(f: u32, a: &Args, out: &Args) -> Option<(&'static str, String)> {
         }
         722 => {
             if out[0][1] != 1 || out[0][2] != 1 || out[0][3] != 1 { return Some(("C19", format!("certificate chain does not survive store-then-load: {:?}", out[0]))); }
+            None
+        }
+        702 => {
+            if out[0][0] == 1 {
+                if out[0][1] != 1 {
+                    return None; // the control connection did not come up: no verdict
+                }
+                if out[0][2] != 0 {
+                    return Some(("C10", format!("default trust policy (environment variant {}: SSL_CERT_FILE {}, SSL_CERT_DIR {}) established a session with a self-signed server", a[0][0], if a[0][0] == 1 || a[0][0] == 3 { "set" } else { "unset" }, if a[0][0] >= 2 { "set" } else { "unset" })));
+                }
+            }
+            None
+        }
+        724 => {
+            if out[0][1..] != [1, 1, 1, 1, 1] {
+                return Some(("C19", format!("storing {} then {} certificates into the same file (and a short key over a long one): stored={},{} chain loads back equal={} file equals to_pem={} key file equals to_secret_pem={}", a[0][0], a[0][1], out[0][1], out[0][2], out[0][3], out[0][4], out[0][5])));
+            }
             None
         }
         731 => {
@@ -307,6 +441,17 @@ pub fn generate(rng: &mut Rng, thorough: bool, which: &str) -> Vec<Case> {
                     }
                 }
             }
+            // the set built incrementally with add(), in orders a sorted container would not produce
+            for how in [1u64, 2] {
+                for mode in [1u64, 3, 2, 4, 8] {
+                    for alg in 0..2u64 {
+                        cs.push(Case::new(701, vec![vec![alg, b(0), b(day), b(10), mode, 0, how]], "pin-set-built-with-add"));
+                    }
+                }
+            }
+            for v in 0..4u64 {
+                cs.push(Case::new(702, vec![vec![v]], "default-trust-policy"));
+            }
             cs.push(Case::new(701, vec![vec![0, b(0), b(day), b(10), 1, 1]], "truncated-der"));
             cs.push(Case::new(701, vec![vec![0, b(0), b(day), b(10), 1, 2]], "altered-certificate"));
             let _ = rng.next();
@@ -348,6 +493,9 @@ pub fn generate(rng: &mut Rng, thorough: bool, which: &str) -> Vec<Case> {
             }
             for n in [0u64, 1, 2, 3, 8] {
                 cs.push(Case::new(722, vec![vec![n]], "chain"));
+            }
+            for (n, m) in [(3u64, 1u64), (1, 0), (2, 2), (1, 3), (8, 2)] {
+                cs.push(Case::new(724, vec![vec![n, m]], "store-over-existing-file"));
             }
             let good = Certificate::from_der(make_cert(0, 0, 100)).unwrap().to_pem();
             let bads: Vec<Vec<u8>> = vec![
